@@ -94,6 +94,11 @@ pub struct Case {
     /// for the sink table and for reading back (never for Arrow IPC, whose reader does not adapt types)
     #[serde(default)]
     pub varchar_is_view: bool,
+    /// INSERT sink only: the listing table is registered through `register_listing_table` with the
+    /// extension COPY would use (`.csv.gz` …) instead of CREATE EXTERNAL TABLE (whose extension filter is
+    /// empty), and the rows are additionally read back through that same table
+    #[serde(default)]
+    pub insert_api: bool,
 }
 
 const PARQUET_COMP: &[&str] = &["uncompressed", "snappy", "gzip(4)", "zstd(3)", "lz4", "lz4_raw", "brotli(3)"];
@@ -257,6 +262,7 @@ async fn run_case_inner(c: &Case, root: &std::path::Path) -> Result<Outcome, Cas
     std::fs::create_dir_all(&out_dir).map_err(|e| CaseResult::inconclusive(format!("mkdir: {e}")))?;
     let target = if p.single_file { format!("{}/data{}", out_dir.display(), p.ext) } else { format!("{}/", out_dir.display()) };
     let part_names: Vec<String> = p.part.iter().map(|i| p.names[*i].clone()).collect();
+    let mut same_table: Option<Vec<Row>> = None;
     let all_cols = p.names.join(", ");
     let col_defs = |idx: &[usize]| idx.iter().map(|i| format!("{} {}", p.names[*i], c.cols[*i].sql())).collect::<Vec<_>>().join(", ");
     let all_idx: Vec<usize> = (0..n).collect();
@@ -286,8 +292,32 @@ async fn run_case_inner(c: &Case, root: &std::path::Path) -> Result<Outcome, Cas
             run_sql(&ctx, &sql).await.map_err(|e| fail(&format!("COPY ({sql})"), &e))?;
         }
         Sink::Insert => {
-            let ddl = format!("CREATE EXTERNAL TABLE sink ({}) STORED AS {} LOCATION {}{partitioned_by}{}", col_defs(&all_idx), c.stored_as(), sql_str(&target), opts_clause(&[]));
-            run_sql(&ctx, &ddl).await.map_err(|e| fail(&format!("CREATE EXTERNAL TABLE ({ddl})"), &e))?;
+            if c.insert_api {
+                use datafusion::datasource::file_format::FileFormat;
+                use datafusion::datasource::file_format::{arrow::ArrowFormat, csv::CsvFormat, json::JsonFormat, parquet::ParquetFormat};
+                let fct = match p.comp_name.as_str() {
+                    "gzip" => FileCompressionType::GZIP,
+                    "bzip2" => FileCompressionType::BZIP2,
+                    "xz" => FileCompressionType::XZ,
+                    "zstd" => FileCompressionType::ZSTD,
+                    _ => FileCompressionType::UNCOMPRESSED,
+                };
+                let format: Arc<dyn FileFormat> = match c.format {
+                    Fmt::Parquet => Arc::new(ParquetFormat::default()),
+                    Fmt::Csv => Arc::new(CsvFormat::default().with_has_header(true).with_file_compression_type(fct)),
+                    Fmt::Json => Arc::new(JsonFormat::default().with_file_compression_type(fct)),
+                    Fmt::Arrow => Arc::new(ArrowFormat),
+                };
+                let pcols: Vec<(String, DataType)> = p.part.iter().map(|i| (p.names[*i].clone(), c.cols[*i].arrow())).collect();
+                let fidx: Vec<usize> = (0..n).filter(|i| !p.part.contains(i)).collect();
+                let fschema = Arc::new(Schema::new(fidx.iter().map(|i| arrow::datatypes::Field::new(&p.names[*i], c.cols[*i].arrow(), true)).collect::<Vec<_>>()));
+                let lo = datafusion::datasource::listing::ListingOptions::new(format).with_file_extension(p.ext.clone()).with_table_partition_cols(pcols);
+                ctx.register_listing_table("sink", &target, lo, Some(fschema), None).await.map_err(|e| fail("register_listing_table(sink)", &e))?;
+                labels.push("insert:api-table".into());
+            } else {
+                let ddl = format!("CREATE EXTERNAL TABLE sink ({}) STORED AS {} LOCATION {}{partitioned_by}{}", col_defs(&all_idx), c.stored_as(), sql_str(&target), opts_clause(&[]));
+                run_sql(&ctx, &ddl).await.map_err(|e| fail(&format!("CREATE EXTERNAL TABLE ({ddl})"), &e))?;
+            }
             if c.two_inserts && c.rows.len() >= 2 {
                 // the two halves are told apart by a row number computed over the source
                 let half = c.rows.len() / 2;
@@ -303,6 +333,10 @@ async fn run_case_inner(c: &Case, root: &std::path::Path) -> Result<Outcome, Cas
             } else {
                 let sql = format!("INSERT INTO sink ({all_cols}) SELECT {all_cols} FROM src");
                 run_sql(&ctx, &sql).await.map_err(|e| fail(&format!("INSERT ({sql})"), &e))?;
+            }
+            if c.insert_api {
+                let b = run_sql(&ctx, &format!("SELECT {all_cols} FROM sink")).await.map_err(|e| fail("reading the sink table after INSERT", &e))?;
+                same_table = Some(batches_to_rows(&b).map_err(|m| CaseResult::violation(format!("result conversion: {m}")))?);
             }
         }
         Sink::DataFrame => {
@@ -414,6 +448,19 @@ async fn run_case_inner(c: &Case, root: &std::path::Path) -> Result<Outcome, Cas
     let expected = norm(&c.rows);
     let got = norm(&got);
     let null_part = !p.keep && c.rows.iter().any(|r| p.part.iter().any(|i| r.get(*i).map(|v| v.is_null()).unwrap_or(true)));
+    if let (Some(st), false) = (&same_table, null_part) {
+        if let Some(d) = multiset_diff(&expected, &norm(st)) {
+            let names: Vec<String> = files.iter().map(|f| f.rsplit('/').next().unwrap_or(f).to_string()).take(6).collect();
+            return Ok(Outcome {
+                violation: Some(format!(
+                    "the listing table (extension {:?}, format {:?}, compression {}) does not return the rows INSERTed into it: {d}; files written: {names:?}",
+                    p.ext, c.format, p.comp_name
+                )),
+                labels,
+                nontrivial: true,
+            });
+        }
+    }
     let diff = multiset_diff(&expected, &got);
     // labels
     let escaped_part = c.rows.iter().any(|r| p.part.iter().any(|i| matches!(r.get(*i), Some(V::Str(s)) if part_needs_escape(s))));
@@ -555,13 +602,13 @@ impl Property for C25 {
                 1u8..5,
                 prop::bool::weighted(0.25),
             ),
-            (prop::collection::vec(any::<u16>(), 0..6), 1u8..4, 1u8..5, any::<bool>(), any::<bool>(), prop::bool::weighted(0.3)),
+            (prop::collection::vec(any::<u16>(), 0..6), 1u8..4, 1u8..5, any::<bool>(), any::<bool>(), prop::bool::weighted(0.3), prop::bool::weighted(0.4)),
         )
-            .prop_map(|((cols, raws, part), (format, compression, sink, single_file, soft_max_rows, min_parallel_files, keep_partition_cols), (batch_cuts, src_partitions, target_partitions, read_api, two_inserts, varchar_is_view))| {
+            .prop_map(|((cols, raws, part), (format, compression, sink, single_file, soft_max_rows, min_parallel_files, keep_partition_cols), (batch_cuts, src_partitions, target_partitions, read_api, two_inserts, varchar_is_view, insert_api))| {
                 let n = cols.len();
                 let pidx: BTreeSet<usize> = part.iter().map(|p| (*p as usize) % n).collect();
                 let rows: Vec<Row> = raws.iter().map(|rr| (0..n).map(|i| cell(&cols[i], &rr[i % rr.len()], pidx.contains(&i))).collect()).collect();
-                Case { cols, rows, part, format, compression, sink, single_file, soft_max_rows, min_parallel_files, keep_partition_cols, batch_cuts, src_partitions, target_partitions, read_api, two_inserts, varchar_is_view }
+                Case { cols, rows, part, format, compression, sink, single_file, soft_max_rows, min_parallel_files, keep_partition_cols, batch_cuts, src_partitions, target_partitions, read_api, two_inserts, varchar_is_view, insert_api }
             })
             .boxed()
     }
@@ -580,6 +627,16 @@ impl Property for C25 {
             "NULL partition values are outside the asserted domain (observe-only labels)".into(),
             "for CSV, NULL and '' of string columns are identified; CSV files carry at least two columns".into(),
         ]
+    }
+    fn known_signature(&self, c: &Case) -> Option<String> {
+        if std::env::var("VERIF_C25_NO_EXCLUDE").map(|v| v == "1").unwrap_or(false) {
+            return None;
+        }
+        let text = matches!(c.format, Fmt::Csv | Fmt::Json);
+        if c.sink == Sink::Insert && c.insert_api && text && c.compression as usize % TEXT_COMP.len() != 0 && !c.rows.is_empty() {
+            return Some("insert-into-compressed-text-table-extension".into());
+        }
+        None
     }
     fn run(&self, c: &Case) -> CaseResult {
         let n = c.cols.len();
